@@ -201,6 +201,39 @@ def builtinStringReplace (E : Eng) (rx : RX) (target : List Nat) (repl : Repl) :
   let result := if lastIndex ≠ target.length then result ++ target.drop lastIndex else result
   (rx, .str (jsStr result))
 
+/-- the four regexp-observing replacers of the harness as state transformers on the RegExp object;
+    none = the callback throws -/
+def callbackS (E : Eng) (target : List Nat) (kind : Step) (rx : RX) : Option (RX × List Nat) :=
+  match kind with
+  | .replaceL => some (rx, 60 :: liText rx.lastIndex ++ [62])
+  | .replaceW v => some ({ rx with lastIndex := v }, [])
+  | .replaceE =>
+    match builtinRegExpExec E rx target with
+    | (rx', .arr (some i) _) => some (rx', 60 :: 109 :: natText i ++ 64 :: liText rx'.lastIndex ++ [62])
+    | (rx', _) => some (rx', 60 :: 110 :: 64 :: liText rx'.lastIndex ++ [62])
+  | _ => none
+
+/-- builtin_string.go:300-321, the function-replacer loop with a replacer that changes the RegExp object -/
+def replaceLoopS (target : List Nat) (cb : RX → Option (RX × List Nat)) : List Caps → RX → Nat → List Nat → Option (RX × List Nat × Nat)
+  | [], rx, lastIndex, result => some (rx, result, lastIndex)
+  | mt :: rest, rx, lastIndex, result =>
+    let result := if capStart mt ≠ lastIndex then result ++ slice target lastIndex (capStart mt) else result
+    match cb rx with
+    | none => none
+    | some (rx', text) => replaceLoopS target cb rest rx' (capEnd mt) (result ++ text)
+
+/-- builtin_string.go:258 builtinStringReplace with a replacer that reads / writes / uses the RegExp itself.
+    The global search and its `lastIndex = 0` (line 287-290) are complete BEFORE the first callback. -/
+def builtinStringReplaceS (E : Eng) (rx : RX) (target : List Nat) (kind : Step) : RX × Res :=
+  let found := findAll E target (if rx.global then none else some 1)
+  let rx := if rx.global then { rx with lastIndex := .int 0 } else rx
+  if found.isEmpty then (rx, .str (jsStr target)) else
+  match replaceLoopS target (callbackS E target kind) found rx 0 [] with
+  | none => (rx, .thrown)                    -- first callback threw: the object is as the search left it
+  | some (rx', result, lastIndex) =>
+    let result := if lastIndex ≠ target.length then result ++ target.drop lastIndex else result
+    (rx', .str (jsStr result))
+
 /-- builtin_string.go:288 builtinStringSearch -/
 def builtinStringSearch (E : Eng) (rx : RX) (target : List Nat) : RX × Res :=
   match E.findAt target 0 with
@@ -255,6 +288,10 @@ def step (E : Eng) (target : List Nat) (rx : RX) : Step → RX × Res
   | .replaceF => builtinStringReplace E rx target .report
   | .replaceK r => builtinStringReplace E rx target (.const r)
   | .replaceT => builtinStringReplace E rx target .types
+  | .replaceL => builtinStringReplaceS E rx target .replaceL
+  | .replaceW v => builtinStringReplaceS E rx target (.replaceW v)
+  | .replaceE => builtinStringReplaceS E rx target .replaceE
+  | .replaceX => builtinStringReplaceS E rx target .replaceX
   | .split l => builtinStringSplit E rx target l
   | .setLI v => ({ rx with lastIndex := v }, .undef)
 
